@@ -742,7 +742,8 @@ Theorem enc_wbxml_full tbl l o tag attrs ch bs :
   let e := enc_env l o in
   tag_tbl_ok e = true -> frag5_node (NElt tag attrs ch) = true ->
   enc_wbxml tbl l o [NElt tag attrs ch] = EOk bs -> len bs < 4294967296 ->
-  exists st' root,
+  exists body st' root,
+    enc_body tbl l o [NElt tag attrs ch] = EOk (body, st') /\
     abs_node5 tbl e None (NElt tag attrs ch) (start_state e [NElt tag attrs ch]) = Some ([root], st') /\
     bs = S.serialize (abs_doc2 e st' root) /\ S.strict_doc (abs_doc2 e st' root) = true.
 Proof.
@@ -785,7 +786,7 @@ Proof.
   destruct SZ as [Hb Hp].
   pose proof (header_len_ok_gen tbl l o _ _ st2 EB NOTBL Hb Hp) as HL.
   pose proof (strict_doc_gen tbl l o _ _ st2 root EB Hsx NOTBL Hb) as Hstrict.
-  exists st2, root. split; [exact A|]. split; [|exact Hstrict].
+  exists (b1 ++ []), st2, root. split; [reflexivity|]. split; [exact A|]. split; [|exact Hstrict].
   rewrite (fill_header_ser e st2 root HL). unfold S.serialize. f_equal.
   assert (P : S.wd_pis_before (abs_doc2 e st2 root) = [] /\ S.wd_root (abs_doc2 e st2 root) = root /\ S.wd_pis_after (abs_doc2 e st2 root) = [])
     by (unfold abs_doc2; destruct (header_table e st2) as [[? ?] ?]; auto).
